@@ -7,15 +7,82 @@ RULE = ('generated charts whose handlers post fifo/lifo at reactions and at entr
         'snapshot per step; the signal of the first handler invocation of every step must equal the front of a collections.deque '
         'model driven by the same operation history (external posts, handler posts taken from the ground-truth log), the queue '
         'length must match after every step and no step may run when the model queue is empty. complete_circuit is exercised '
-        'separately per case; in a third of these runs some of the posted events make their step FAIL (the handler raises): the client catches the exception and keeps calling complete_circuit / next_rtc, and every event - the failed ones too - must have been dispatched exactly once, in deque order. distinct_nontrivial = distinct (host, steps, handler posts, lifo share) tuples with >= 1 handler post')
+        'separately per case; in a third of these runs some of the posted events make their step FAIL (the handler raises): the client catches the exception and keeps calling complete_circuit / next_rtc, and every event - the failed ones too - must have been dispatched exactly once, in deque order. Every eighth case lets 2-3 threads post (lifo and fifo, 1-2 posts each) at the same time to a chart that is not stepping, under detsched with line-level yield points inside post_fifo/post_lifo, on an empty queue or one holding 1-2 events: the queue afterwards must hold an order that some sequential order of the same calls produces on a collections.deque (all merges enumerated). distinct_nontrivial = distinct (host, steps, handler posts, lifo share) tuples with >= 1 handler post')
 CASES = {'quick': 3000, 'thorough': 200000}
 BUDGET = {'quick': 150, 'thorough': 300}
-REQUIRE = {'steps': 20000, 'handler_posts': 2000, 'complete_circuit_runs': 500, 'steps_that_failed_and_were_survived': 300}
+REQUIRE = {'steps': 20000, 'handler_posts': 2000, 'complete_circuit_runs': 500, 'steps_that_failed_and_were_survived': 300, 'racing_post_runs': 120, 'racing_post_runs_on_an_empty_queue': 60}
 ASSUME = ['queue capacity (500) is not reached (overflow is C16)']
 ENGINE = 'chartgen+model'
 
 
+def racing_posts_case(ctx, n):
+  """two or three threads post to a chart that is not stepping (a chart's posting calls are made from other threads as a matter
+  of course): whatever the interleaving, the queue must afterwards hold an order that SOME sequential order of the very same
+  posting calls produces on a collections.deque - a lifo post whose 'front' is decided before and carried out after somebody
+  else's post yields an order that no sequential execution has"""
+  import itertools
+  import collections
+  import miros.hsm as H
+  from miros.event import Event
+  from vt import detsched as ds, aosim
+  rng = ctx.rng('racing', n)
+  nthreads = rng.randint(2, 3)
+  plans = [[(rng.choice(['lifo', 'fifo']), (i, j)) for j in range(rng.randint(1, 2))] for i in range(nthreads)]
+  if not any(k == 'lifo' for pl in plans for k, _ in pl):
+    plans[0][0] = ('lifo', plans[0][0][1])
+  start_with = rng.choice([0, 0, 0, 1, 2])
+  pol = dict(policy='random', p_switch=rng.choice([0.1, 0.3, 0.6])) if rng.random() < 0.7 else dict(policy='pct', pct_depth=3, pct_len=150)
+  s = ds.Sched(seed=rng.randrange(1 << 30), max_steps=500000, **pol)
+  ds.install(s, line_mods=[H], line_funcs={H: aosim.HSM_FUNCS}, log_deque=False)
+  try:
+    chart = H.HsmWithQueues(instrumented=rng.random() < 0.5)
+    for i in range(start_with):
+      chart.post_fifo(Event(signal='C14_R0', payload=('there', i)))
+
+    def worker(i):
+      for kind, tag in plans[i]:
+        (chart.post_lifo if kind == 'lifo' else chart.post_fifo)(Event(signal='C14_R%d' % (1 + i), payload=tag))
+    wit = {'plans_per_thread': plans, 'events_in_the_queue_at_the_start': start_with, 'policy': pol}
+    try:
+      ths = [ds.SThread(target=worker, args=(i,)) for i in range(nthreads)]
+      for t in ths:
+        t.start()
+      for t in ths:
+        t.join()
+    except ds.Verdict as v:
+      ctx.violation('C14/racing-posts-' + v.kind, 'racing posts ended in %s' % v.kind, wit)
+      return
+    ctx.count('racing_post_runs')
+    if start_with == 0:
+      ctx.count('racing_post_runs_on_an_empty_queue')
+    ctx.distinct(('racing', tuple(tuple(k for k, _ in pl) for pl in plans), start_with, s.signature()[:20]))
+    exc = [(t.name, repr(t.exc)) for t in s.threads if t.exc is not None]
+    if exc:
+      ctx.violation('C14/racing-posts-exception', 'a posting thread raised: %r' % exc, wit)
+      return
+    got = [tuple(e.payload) for e in chart.queue]
+    # every sequential order of the calls that keeps each thread's own order
+    slots = [i for i, pl in enumerate(plans) for _ in pl]
+    legal = set()
+    for perm in set(itertools.permutations(slots)):
+      d = collections.deque(('there', i) for i in range(start_with))
+      idx = [0] * nthreads
+      for i in perm:
+        kind, tag = plans[i][idx[i]]
+        idx[i] += 1
+        (d.appendleft if kind == 'lifo' else d.append)(tag)
+      legal.add(tuple(d))
+    wit['queue_afterwards'] = got
+    if tuple(got) not in legal:
+      ctx.violation('C14/racing-posts-order-no-sequential-execution-has',
+                    'after racing posts %r the queue holds %r; the sequential orders of these calls give only %r' % (plans, got, sorted(legal)[:6]), wit)
+  finally:
+    ds.uninstall()
+
+
 def run_case(ctx, n):
+  if n % 8 == 7:
+    return racing_posts_case(ctx, n)
   r = qcheck.run_qcase(ctx, n, ('C14',), allow_defer=False, spied=(True, False), instrumented=(True, False))
   if r is None:
     return
